@@ -22,6 +22,12 @@ Functions/Order.lean.  `lake build JsonbModel.Proofs.TranslatedAgreeF`.
   F15 the member loop of `object_convert_to_comparable` = `Fn.keyObjLoop`
   F16 `object_convert_to_comparable` = `Fn.keyObject`; the group: `scalar_convert_to_comparable` = `Fn.keyScalar`
   F17 the public `convert_to_comparable` = `Fn.convertToComparable` (JSONB) / the text branch; on encoded good documents
+  F18 `==` on `Number`, `scalar_eq` = `Fn.scalarEq`; `for` over an iterator = `for` over the collected items
+      (`forIter_of_drain`, `collectIter_of_drain`); `array_contains` = `Fn.arrayContains`
+  F19 where `get_jentry_by_name` can point; the object branch of `contains_jsonb` = `Fn.containsMembers`
+  F20 the array branch of `contains_jsonb` = `Fn.containsItems` / `Fn.containsNested`
+  F21 `contains_jsonb` = `Fn.containsJsonb` (wherever the model answers without panicking), the public `contains` =
+      `Fn.contains` / the text branch; on encoded good documents
 -/
 import JsonbModel.Proofs.TranslatedAgreeF1
 import JsonbModel.Proofs.TranslatedAgreeF2
@@ -40,3 +46,7 @@ import JsonbModel.Proofs.TranslatedAgreeF14
 import JsonbModel.Proofs.TranslatedAgreeF15
 import JsonbModel.Proofs.TranslatedAgreeF16
 import JsonbModel.Proofs.TranslatedAgreeF17
+import JsonbModel.Proofs.TranslatedAgreeF18
+import JsonbModel.Proofs.TranslatedAgreeF19
+import JsonbModel.Proofs.TranslatedAgreeF20
+import JsonbModel.Proofs.TranslatedAgreeF21
